@@ -180,6 +180,21 @@ static void d_deplast(C4_DepLast_table_t t)
 { if (!t) { D("~"); return; } D("DepLast{u="); d_union(C4_DepLast_u_type(t), C4_DepLast_u(t)); D(" v="); d_anyvec(C4_DepLast_v_union(t)); D(" w="); d_union(C4_DepLast_w_type(t), C4_DepLast_w(t)); D("}"); }
 static void d_deponly(C4_DepOnly_table_t t)
 { if (!t) { D("~"); return; } D("DepOnly{n="); P(C4_DepOnly_n_is_present(t)); D("%d s=", C4_DepOnly_n(t)); d_str(C4_DepOnly_s(t)); D("}"); }
+static void d_s1(C4_S1_struct_t x) { if (!x) D("~"); else D("S1(%u)", C4_S1_a(x)); }
+static void d_s2(C4_S2_struct_t x) { if (!x) D("~"); else D("S2(%u,%u)", C4_S2_a(x), C4_S2_b(x)); }
+static void d_s2s(C4_S2s_struct_t x) { if (!x) D("~"); else D("S2s(%u)", C4_S2s_a(x)); }
+static void d_s3(C4_S3_struct_t x) { if (!x) D("~"); else D("S3(%u,%u,%u)", C4_S3_a(x), C4_S3_b(x), C4_S3_c(x)); }
+static void d_tiny(C4_Tiny_table_t t)
+{
+    if (!t) { D("~"); return; }
+    D("Tiny{n1="); if (!C4_Tiny_n1(t)) D("~"); else d_s1(C4_Tiny_n1_as_root(t));
+    D(" n2="); if (!C4_Tiny_n2(t)) D("~"); else d_s2(C4_Tiny_n2_as_root(t));
+    D(" n2s="); if (!C4_Tiny_n2s(t)) D("~"); else d_s2s(C4_Tiny_n2s_as_root(t));
+    D(" n3="); if (!C4_Tiny_n3(t)) D("~"); else d_s3(C4_Tiny_n3_as_root(t));
+    D(" n4="); if (!C4_Tiny_n4(t)) D("~"); else d_pt(C4_Tiny_n4_as_root(t));
+    D(" n8="); if (!C4_Tiny_n8(t)) D("~"); else { C4_Point_struct_t q = C4_Tiny_n8_as_root(t); D("(%d,%d)", C4_Point_x(q), C4_Point_y(q)); }
+    D(" s1="); d_s1(C4_Tiny_s1(t)); D(" s3="); d_s3(C4_Tiny_s3(t)); D(" k="); P(C4_Tiny_k_is_present(t)); D("%d}", C4_Tiny_k(t));
+}
 static void d_node(C4_Node_table_t t, int depth);
 static void d_tree(C4_Tree_union_type_t type, flatbuffers_generic_t v, int depth)
 {
@@ -257,6 +272,11 @@ static struct root roots[] = {
     { "DepMid", C4_DepMid_parse_json_as_root, C4_DepMid_print_json_as_root, C4_DepMid_verify_as_root_with_identifier, 10 },
     { "DepLast", C4_DepLast_parse_json_as_root, C4_DepLast_print_json_as_root, C4_DepLast_verify_as_root_with_identifier, 11 },
     { "DepOnly", C4_DepOnly_parse_json_as_root, C4_DepOnly_print_json_as_root, C4_DepOnly_verify_as_root_with_identifier, 12 },
+    { "Tiny", C4_Tiny_parse_json_as_root, C4_Tiny_print_json_as_root, C4_Tiny_verify_as_root_with_identifier, 13 },
+    { "S1", C4_S1_parse_json_as_root, C4_S1_print_json_as_root, C4_S1_verify_as_root_with_identifier, 14 },
+    { "S2", C4_S2_parse_json_as_root, C4_S2_print_json_as_root, C4_S2_verify_as_root_with_identifier, 15 },
+    { "S2s", C4_S2s_parse_json_as_root, C4_S2s_print_json_as_root, C4_S2s_verify_as_root_with_identifier, 16 },
+    { "S3", C4_S3_parse_json_as_root, C4_S3_print_json_as_root, C4_S3_verify_as_root_with_identifier, 17 },
     { 0, 0, 0, 0, 0 }
 };
 static char *dump_buffer(struct root *r, const void *buf, int presence)
@@ -276,6 +296,11 @@ static char *dump_buffer(struct root *r, const void *buf, int presence)
     case 10: d_depmid(C4_DepMid_as_root(buf)); break;
     case 11: d_deplast(C4_DepLast_as_root(buf)); break;
     case 12: d_deponly(C4_DepOnly_as_root(buf)); break;
+    case 13: d_tiny(C4_Tiny_as_root(buf)); break;
+    case 14: d_s1(C4_S1_as_root(buf)); break;
+    case 15: d_s2(C4_S2_as_root(buf)); break;
+    case 16: d_s2s(C4_S2s_as_root(buf)); break;
+    case 17: d_s3(C4_S3_as_root(buf)); break;
     }
     return strdup(dbuf);
 }
